@@ -274,6 +274,9 @@ func (s *state) doReturn(rs []Val, d *ssa.Return) {
 	}
 	u.covers = append(u.covers, &oblig{name: u.name() + "#cover." + site, kind: "cover", pc: append([]string(nil), s.pc...), goal: "false", clause: "return reachable", path: u.npaths})
 	for i, c := range u.ct.ensures {
+		if !c.active() {
+			continue
+		}
 		e.what = fmt.Sprintf("%s ensures %q", u.name(), c.src)
 		sc := s.scratch()
 		ee := e.with(sc)
@@ -315,6 +318,9 @@ func (s *state) applyContract(fc *funcContract, callee *ssa.Function, args []Val
 	e := s.contractEnv(fc, callee, args, nil)
 	site := s.site(d)
 	for i, c := range fc.requires {
+		if !c.active() {
+			continue
+		}
 		e.what = fmt.Sprintf("call %s requires %q", what, c.src)
 		sc := s.scratch()
 		goal := e.with(sc).evalBool(c.e)
@@ -402,6 +408,9 @@ func (s *state) applyContract(fc *funcContract, callee *ssa.Function, args []Val
 	pe := s.contractEnv(fc, callee, args, results)
 	pe.old = pre
 	for _, c := range fc.ensures {
+		if !c.active() {
+			continue
+		}
 		pe.what = fmt.Sprintf("call %s ensures %q", what, c.src)
 		s.pc = append(s.pc, pe.evalBool(c.e))
 	}
